@@ -10,9 +10,30 @@ RULE = ("random ordered pairs of epsilon-NFA/NFA/DFA specs (0-4 states, shared 1
         "complement, difference, reverse) and by exact language equivalence with verified reference "
         "constructions (all seven). Non-trivial: first operand has >=2 states, >=2 transitions, a start and "
         "a final state.")
-THEOREMS = ["Pfl.ENFA.inter_lang", "Pfl.ENFA.mapStates_lang", "Pfl.ENFA.reverse_lang",
-            "Pfl.ENFA.complementRaw_lang", "Pfl.ENFA.complementRaw_lang_dfa", "Pfl.ENFA.toDet_lang",
-            "Pfl.ENFA.toDet_shape", "Pfl.ENFA.langDiff_none_iff", "Pfl.ENFA.langDiff_some"]
+THEOREMS = ["Pfl.ENFA.inter_lang",
+            "Pfl.ENFA.mapStates_lang",
+            "Pfl.ENFA.reverse_lang",
+            "Pfl.ENFA.complementRaw_lang",
+            "Pfl.ENFA.complementRaw_lang_dfa",
+            "Pfl.ENFA.toDet_lang",
+            "Pfl.ENFA.toDet_shape",
+            "Pfl.ENFA.unionA_lang",
+            "Pfl.ENFA.concatA_lang",
+            "Pfl.ENFA.starA_lang",
+            "Pfl.ENFA.canonS_keyInj",
+            "Pfl.ENFA.complementRef_lang",
+            "Pfl.ENFA.complementRef_wf",
+            "Pfl.ENFA.inter_wf",
+            "Pfl.ENFA.reverse_wf",
+            "Pfl.ENFA.unionA_wf",
+            "Pfl.ENFA.concatA_wf",
+            "Pfl.ENFA.starA_wf",
+            "Pfl.ENFA.addSyms_lang",
+            "Pfl.ENFA.addSyms_wf",
+            "Pfl.ENFA.langDiff_none_iff",
+            "Pfl.ENFA.langDiff_some",
+            "Pfl.Names.pairName_inj",
+            "Pfl.Names.pairName_not_inj"]
 
 TRASH = "TrashNode"
 
@@ -37,7 +58,9 @@ def trash_code(scodes):
 
 def pair_scope(sa, sb):
     tags = []
-    if any(";" in str(v) for v in list(sa) + list(sb)):
+    strs_a, strs_b = [str(v) for v in sa], [str(v) for v in sb]
+    if any(";" in x for x in strs_a + strs_b) or len(set(strs_a)) != len(strs_a) \
+            or len(set(strs_b)) != len(strs_b):
         tags.append("unclean_pair_names")
     return tags
 
@@ -94,7 +117,8 @@ def run_case(case, drv):
             res.violation(opname, "raised %s" % R, scope=scope)
             continue
         if M["det"]:
-            ccodes = F.Codes(list(ca.values))
+            ccodes = F.Codes([(v if not (isinstance(v, str) and v == M["trashName"]) else object())
+                              for v in ca.values])   # a spec value not in the automaton is not the trash
             ccodes.values.append(M["trashName"])
             Rx = F.extract(R, ccodes, ycodes)
         else:
@@ -144,7 +168,10 @@ def run_case(case, drv):
             ("union", "union", lambda: fa.union(fb), multi_b, {"B": B}),
             ("concatenate", "concat", lambda: fa.concatenate(fb), multi_b, {"B": B}),
             ("kleene_star", "star", fa.kleene_star, multi, {})):
-        st, R = outcome(f, limit=10.0)
+        if len(A["delta"]) > 7 or (kw and len(B["delta"]) > 7):
+            res.tag("regop_skipped_dense")
+            continue
+        st, R = outcome(f, limit=3.0)
         if st == "timeout":
             res.tag("regop_timeout")
             continue
@@ -154,6 +181,9 @@ def run_case(case, drv):
         st, Rx = outcome(lambda R=R: F.extract(R, F.Codes([]), ycodes))
         if st != "ok":
             res.violation(opname, "result uses symbols outside the operand alphabets", scope=scope)
+            continue
+        if len(Rx["states"]) > 80:
+            res.tag("regop_skipped_big_result")
             continue
         langop(opname, kind, Rx, scope, False, **kw)
     return res
